@@ -2,6 +2,7 @@ package sim
 
 import (
 	"fmt"
+	"os"
 	"runtime"
 	"runtime/debug"
 	"strings"
@@ -32,9 +33,60 @@ type Thread struct {
 	blockedAt int
 	Panic     interface{}
 	PanicTop  string
+	// Weight > 1 makes the random-walk styles pick this thread that much more
+	// often than a thread of weight 1 (a thread whose operations are many
+	// statements long otherwise never finishes one while the others live).
+	Weight int
+	// StallAt > 0: after its StallAt-th resumption the thread is left alone for
+	// StallFor resumptions of other threads (a thread descheduled at an arbitrary
+	// statement), as far as the random-walk styles are concerned.
+	StallAt, StallFor int
+	resumed, stallEnd int
 }
 
 func (t *Thread) Site() string { return t.site }
+
+// pick draws one of the threads, proportionally to their weights; with all
+// weights at the default it consumes exactly one uniform draw.
+func (s *Sched) pick(el []*Thread) *Thread {
+	var awake []*Thread
+	for _, t := range el {
+		if t.StallAt > 0 && t.resumed == t.StallAt {
+			if t.stallEnd == 0 {
+				t.stallEnd = s.resumes + t.StallFor
+			}
+			if s.resumes < t.stallEnd {
+				continue
+			}
+		}
+		awake = append(awake, t)
+	}
+	if len(awake) > 0 {
+		el = awake
+	}
+	total := 0
+	for _, t := range el {
+		if t.Weight > 1 {
+			total += t.Weight
+		} else {
+			total++
+		}
+	}
+	if total == len(el) {
+		return el[s.R.T.Draw(len(el))]
+	}
+	x := s.R.T.Draw(total)
+	for _, t := range el {
+		w := 1
+		if t.Weight > 1 {
+			w = t.Weight
+		}
+		if x -= w; x < 0 {
+			return t
+		}
+	}
+	return el[len(el)-1]
+}
 
 // Sched is the cooperative scheduler behind kgsimhook.
 type Sched struct {
@@ -53,6 +105,12 @@ type Sched struct {
 	// PreemptSites, when set (bubble worlds), makes goroutines that are not sim
 	// threads give up the processor at one in three of the instrumented statements
 	// it accepts: other runnable goroutines of the system run in between.
+	// PCTSpan, when > 0, is the step range the PCT style draws its change
+	// points from (default: a quarter of the step budget).
+	PCTSpan int
+	resumes int
+	// Stuck names a thread that did not come back from a resumption (non-bubble worlds).
+	Stuck        string
 	PreemptSites func(site string) bool
 	Preempts     int
 	preemptState uint64
@@ -93,6 +151,12 @@ func (s *Sched) park(t *Thread, st tstate, site string) {
 	<-t.resume
 }
 
+// yieldLog (KG_YIELDLOG=1): debugging aid, every preemption-fuzzing site visit goes into the trace.
+var yieldLog = os.Getenv("KG_YIELDLOG") != ""
+
+// DebugTicks is set by the worker (patched runtime only): scheduler and syscall tick of the processor.
+var DebugTicks func() (uint32, uint32)
+
 func (s *Sched) Yield(site string) {
 	t := s.self()
 	if t == nil {
@@ -102,6 +166,13 @@ func (s *Sched) Yield(site string) {
 			s.preemptState ^= s.preemptState << 13
 			s.preemptState ^= s.preemptState >> 7
 			s.preemptState ^= s.preemptState << 17
+			if yieldLog {
+				var a, b uint32
+				if DebugTicks != nil {
+					a, b = DebugTicks()
+				}
+				s.R.Logf("    y g%d %s %v tick=%d sys=%d", kgsimhook.Goid(), site, s.preemptState%3 == 0, a, b)
+			}
 			if s.preemptState%3 == 0 {
 				s.Preempts++
 				runtime.Gosched()
@@ -238,6 +309,8 @@ func (s *Sched) Resume(t *Thread) {
 	s.mu.Lock()
 	was := t.state
 	t.state = tRunning
+	t.resumed++
+	s.resumes++
 	s.mu.Unlock()
 	t.resume <- struct{}{}
 	if s.Quiesce != nil {
@@ -251,7 +324,15 @@ func (s *Sched) Resume(t *Thread) {
 			break
 		}
 	} else {
-		<-s.ev
+		// outside a bubble a thread that blocks for good outside the instrumented
+		// code (a channel operation of the system nobody will ever complete) would
+		// hold the scheduler for ever: give up on the run after 5 s of real time
+		select {
+		case <-s.ev:
+		case <-time.After(5 * time.Second):
+			s.Stuck = t.Name + " at " + t.site
+			return
+		}
 	}
 	s.mu.Lock()
 	if !(was == tBlocked && t.state == tBlocked) {
@@ -294,9 +375,13 @@ func (s *Sched) RunAll(maxSteps int, style int, atQuiet func()) string {
 			prio[p] = n - i + 10
 		}
 		change = map[int]bool{}
+		span := maxSteps/4 + 1
+		if s.PCTSpan > 0 {
+			span = s.PCTSpan
+		}
 		d := r.T.Draw(4)
 		for i := 0; i < d; i++ {
-			change[1+r.T.Draw(maxSteps/4+1)] = true
+			change[1+r.T.Draw(span)] = true
 		}
 	}
 	low := 0
@@ -337,10 +422,13 @@ func (s *Sched) RunAll(maxSteps int, style int, atQuiet func()) string {
 			}
 			t = best
 		} else {
-			t = el[r.T.Draw(len(el))]
+			t = s.pick(el)
 		}
 		r.Step = step
 		s.Resume(t)
+		if s.Stuck != "" {
+			return "stuck: " + s.Stuck
+		}
 	}
 }
 
@@ -395,6 +483,9 @@ func (s *Sched) RunRounds(maxSteps int, style int, atQuiet func()) string {
 			r.Step = step
 			step++
 			s.Resume(t)
+			if s.Stuck != "" {
+				return "stuck: " + s.Stuck
+			}
 		}
 		// run the busy ones to quiescence
 		cur := -1
@@ -420,11 +511,11 @@ func (s *Sched) RunRounds(maxSteps int, style int, atQuiet func()) string {
 					}
 				}
 				if t == nil || r.T.Draw(4) == 3 {
-					t = busy[r.T.Draw(len(busy))]
+					t = s.pick(busy)
 				}
 				cur = t.ID
 			} else {
-				t = busy[r.T.Draw(len(busy))]
+				t = s.pick(busy)
 			}
 			r.Step = step
 			step++
